@@ -130,6 +130,7 @@ pub fn run(dir: PathBuf, clock: Option<u64>, gate_gc: bool, http: bool, serve: b
     println!("{}", ready);
     let mut nth: u64 = 0;
     let mut follow_src: Option<FollowSrc> = None;
+    let mut slow_conn: Option<std::os::unix::net::UnixStream> = None;
     let mut nu_front = if std::env::var("XSV_NU").is_ok() { Some(crate::nu::NuFront::new(store.clone())) } else { None };
     let cli_bin: Option<String> = std::env::var("XSV_CLI").ok().filter(|s| !s.is_empty());
     for line in stdin.lock().lines() {
@@ -141,6 +142,33 @@ pub fn run(dir: PathBuf, clock: Option<u64>, gate_gc: bool, http: bool, serve: b
         let op = req["op"].as_str().unwrap_or("");
         // a panic inside the code under test is an observation, not a harness failure
         nth += 1;
+        if http && op == "slow_open" {
+            let first = base64::prelude::BASE64_STANDARD.decode(req["first"].as_str().unwrap_or("")).unwrap_or_default();
+            slow_conn = crate::http::slow_open(&sock, req["target"].as_str().unwrap_or("/"), &first);
+            writeln!(out, "{}", json!({"status": if slow_conn.is_some() { 0 } else { -1 }})).unwrap();
+            out.flush().unwrap();
+            continue;
+        }
+        if http && op == "slow_finish" {
+            let rest = base64::prelude::BASE64_STANDARD.decode(req["rest"].as_str().unwrap_or("")).unwrap_or_default();
+            let resp = match slow_conn.take() {
+                Some(c) => {
+                    let r = crate::http::slow_finish(c, &rest);
+                    if r.status == 200 {
+                        match serde_json::from_slice::<Value>(&r.body) {
+                            Ok(f) => json!({"ok": true, "frame": f, "status": 200}),
+                            Err(_) => json!({"ok": false, "err": "unparsable body", "status": -3}),
+                        }
+                    } else {
+                        json!({"ok": false, "err": String::from_utf8_lossy(&r.body), "status": r.status})
+                    }
+                }
+                None => json!({"ok": false, "err": "no open upload", "status": -1}),
+            };
+            writeln!(out, "{}", resp).unwrap();
+            out.flush().unwrap();
+            continue;
+        }
         if http && op == "follow_open" {
             // a streaming request that stays open while the parent goes on appending: raw HTTP, or - `cli_args`
             // given - the real `xs` binary with its standard output piped
